@@ -243,4 +243,15 @@ def tight_family(first_id):
                     progs.append({'id': pid, 'stmts': [stmts[i] for i in order]})
                     classes.setdefault(cls, []).append(pid)
                     pid += 1
+    # a strict and a non-strict relation on the same expression and constant, the first one created inside a disjunction
+    # (so that its literal is not decided when the second is requested), with the bound that pins the boundary value
+    for first, second, pin in (('lt', 'leq', 'geq'), ('leq', 'lt', 'geq'), ('gt', 'geq', 'leq'), ('geq', 'gt', 'leq'), ('lt', 'leq', 'leq'), ('geq', 'gt', 'geq')):
+        for coef in ((1, 0), (1, -1)):
+            e = {'a0': coef[0], 'a1': coef[1], 'c': 2}
+            stmts = [st('relor', r=dict(e, rel=first), b=0, pos=1), st('rel', r=dict(e, rel=second)), st('rel', r=dict(e, rel=pin))]
+            cls = 'strictpair_%s_%s_%s_%d' % (first, second, pin, coef[1])
+            for order in itertools.permutations(range(len(stmts))):
+                progs.append({'id': pid, 'stmts': [stmts[i] for i in order]})
+                classes.setdefault(cls, []).append(pid)
+                pid += 1
     return progs, classes
